@@ -428,24 +428,41 @@ func ruleCommitOwn(c *Ctx, rule string, names ...string) {
 			call, ok := i.(*ssa.Call)
 			return ok && call.Call.IsInvoke() && call.Call.Method.Name() == "SetSlice"
 		}
-		found := false
-		for _, b := range fn.Blocks {
-			for _, ins := range b.Instrs {
-				if isSet(ins) {
-					found = true
-				}
-			}
-		}
-		if !found {
+		if !containsVia(fn, isSet) {
 			c.und(rule, key, fn.Pos(), "no SetSlice call")
 			continue
+		}
+		// SetSlice in the function itself or in a private helper of the package that always makes it; a sibling
+		// operation (an exported function such as Truncate) installs its own result under its own conventions
+		own := viaCalls(isSet)
+		lifted := func(i ssa.Instruction) bool {
+			if call, ok := i.(*ssa.Call); ok {
+				if g := call.Call.StaticCallee(); g != nil && g.Object() != nil && g.Object().Exported() {
+					return isSet(i)
+				}
+			}
+			return own(i)
 		}
 		var bad *ssa.Return
 		for _, r := range returnsOf(fn) {
 			if !maybeSuccess(r) {
 				continue
 			}
-			if !everyPathPasses(fn, r, isSet, nil) {
+			// a return that hands back the result of a private helper is judged in the helper
+			if call, ok := effectiveResults(r)[len(r.Results)-1].(*ssa.Call); ok {
+				if g := call.Call.StaticCallee(); g != nil && inModule(g) && g.Blocks != nil && g.Pkg == fn.Pkg && (g.Object() == nil || !g.Object().Exported()) {
+					okAll := true
+					for _, gr := range returnsOf(g) {
+						if maybeSuccess(gr) && !everyPathPasses(g, gr, lifted, nil) {
+							okAll = false
+						}
+					}
+					if okAll {
+						continue
+					}
+				}
+			}
+			if !everyPathPasses(fn, r, lifted, nil) {
 				bad = r
 			}
 		}
